@@ -145,6 +145,7 @@ def progress_violation(doc, impl_out):
         return f'{len(pages)} pages for {n_lines} lines'
     seen = set()
     previous_blank = False
+    previous = None
     for page in pages:
         blank = page[3] == 'true'
         lines = frag_lines(page[-1], [])
@@ -152,11 +153,47 @@ def progress_violation(doc, impl_out):
         new = (set(lines) | ids) - seen
         if not blank and not new:
             return f'page {page[1]} shows nothing new'
+        # boxes without any extent (no line, height 0, no padding or border: margins collapse through them) are not
+        # content: a last page that only adds such boxes shows nothing new - unless a forced break or a change of
+        # named page before one of them asked for this page (in the middle of a document an avoided break can
+        # rightly move such a box to the top of the page of what follows it)
+        requested = previous is None or (
+            previous[6] != 'any' or previous[7] not in ('none', previous[4]))
+        if (page is pages[-1] and not blank and not requested and plain_heights(doc)
+                and not ((set(lines) | visible_ids(page[-1], set())) - seen)):
+            return f'the last page ({page[1]}) shows nothing new (only boxes without extent) and no break asks for it'
         if blank and previous_blank:
             return f'two consecutive blank pages at {page[1]}'
-        seen |= set(lines) | ids
+        seen |= set(lines) | ids | visible_ids(page[-1], set())
         previous_blank = blank
+        if not blank:
+            previous = page
     return None
+
+
+def plain_heights(doc):
+    """No height other than auto / 0, no min-height, and a page at least as tall as a line (a taller box than the
+    page, cut into fragments, legitimately ends with fragments that hold no line)."""
+    def ok(box):
+        st = box['st']
+        if st['height'] not in ('auto', 0) or st['minH']:
+            return False
+        if box['kind'] == 'para' and box['lineH'] > doc['pageH']:
+            return False
+        return all(ok(k) for k in box['kids'])
+    return ok(doc['root'])
+
+
+def visible_ids(frag, out):
+    """Fragments with an extent of their own: lines, or a non-zero height / padding / border."""
+    from fractions import Fraction
+    y, mt, mb, pt, pb, bt, bb, h = [Fraction(x) for x in frag[3:11]]
+    if h or pt or pb or bt or bb or (frag[0] == 'p' and frag[-1]):
+        out.add(('visible', int(frag[1]), tuple(sorted(int(i) for i, _ in frag[-1])) if frag[0] == 'p' else None))
+    if frag[0] == 'b':
+        for kid in frag[-1]:
+            visible_ids(kid, out)
+    return out
 
 
 def box_ids(frag, out):
